@@ -6,6 +6,7 @@ import Driver.C13
 import Driver.Admission
 import Driver.Timeout
 import Driver.Config
+import Driver.C04
 /-! `vmodel`: the line-protocol driver over the executable Lean model.
     One case per input line (`<stream> <args…>`), one predicted observation per output line. -/
 namespace Driver
@@ -29,6 +30,7 @@ def dispatch (line : String) : String :=
     | "c15l" => c15lOp args
     | "c16" => c16Op args
     | "c19" => c19Op args
+    | "c04" => c04Op args
     | "c13end" => c13endOp args
     | "real" => realOp args
     | _ => "bad-op"
